@@ -55,6 +55,7 @@ class Box:
         self.items = items
         self.term = term
         self.elem = elem
+        self.from_seq = None      # z3 sequence this set was built from (set(seq)), if any
 
     def is_sym(self):
         return self.term is not None
